@@ -11,8 +11,9 @@ edits of the key MATERIAL itself ("k-edit", vlib.keyedit): one named number / oc
 decoded (and, for protected files, decrypted) private section - OpenSSH RSA n e d iqmp p q, ECDSA private
 scalar / public point, Ed25519 seed / each public copy, the public blob's numbers, every copy of one value
 together; PKCS#1 version n e d p q dmp1 dmq1 iqmp; SEC1 scalar / curve OID / public point - is bit-flipped,
-moved by a small delta, replaced by another file's or another field's value, set to 0/1 or encoded
-non-minimally, and the file is rebuilt around it with correct lengths, checkints, padding and encryption.
+moved by a small delta, replaced by another file's or another field's value, set to 0/1, encoded
+non-minimally, or encoded across the sign boundary (first octet with its top bit set and no sign octet, 0xff
+prepended, two's complement of the negated value - in the SSH mpint and the DER INTEGER form alike), and the file is rebuilt around it with correct lengths, checkints, padding and encryption.
 Every run first ENUMERATES (seed file x field x base edit set) with the matching class and right password
 (~2700 cases; thorough: additionally every bit position, sharded over the workers), then the random phase
 mixes k-edits with all other mutations. Each file is loaded with one of the three key classes (usually
@@ -48,7 +49,9 @@ RULE = (
     "flipped/shifted/replaced/re-encoded with the file rebuilt correctly around it), a key "
     "class (matching 70%), password none/right/wrong/empty and the entry point (file object or file name); before the "
     "random phase every run enumerates seed file x key field x base edit set (5 bit positions, deltas -1/+1/+2, other "
-    "file's value, other field's value, 0, 1, non-minimal encoding) with matching class and right password; non-trivial = "
+    "file's value, other field's value, 0, 1, non-minimal encoding, and the sign boundary of the encoding: top bit of the first "
+    "octet set without sign octet, 0xff prepended, two's complement of the negated value, 0xff sign octet) with matching class "
+    "and right password; non-trivial = "
     "mutated text differs from the seed and still contains a BEGIN line; distinct by SHA-1 of (class, password, entry "
     "point, file bytes)"
 )
@@ -457,7 +460,8 @@ def apply_mutation(text, m, aux_texts, pw0=None):
             return text, False
         nh, nraw = view.rebuild(changed)
         wide = begin.startswith(b"-----BEGIN OPENSSH")
-        return join_pem((pre, begin, nh, to_lines(nraw, 70 if wide else 64), end, post)), "%s.%s|%s" % (view.kind, name, m[2])
+        op = m[2] if m[2] != "sign" else "sign-" + E.SIGN_FORMS[m[3] % len(E.SIGN_FORMS)]
+        return join_pem((pre, begin, nh, to_lines(nraw, 70 if wide else 64), end, post)), "%s.%s|%s" % (view.kind, name, op)
     if kind.startswith("body-"):
         sub = kind[5:]
 
@@ -838,7 +842,7 @@ def run(ctx):
         n += 1
     ctx.note("enumerated_key_material_edits", n)
     ctx.note("key_material_views", len(seed_views()))
-    ctx.explore(recipes(), lambda rc: execute(ctx, rc, state), ctx.scale(5000, 20000 if fuzz else 60000), shrink=False)
+    ctx.explore(recipes(), lambda rc: execute(ctx, rc, state), ctx.scale(4400, 20000 if fuzz else 60000), shrink=False)
     ctx.note("seed_files", len(seeds()))
     if fuzz:
         # coverage-guided campaign on the same oracle: worker 0 from the seed corpus, worker 1 from an empty corpus
